@@ -36,7 +36,13 @@ RULE = ("model tie: (1) Metadata(metafile)._map_pieces() -> per piece the (full,
         "fresh interpreter; the destination is judged by the reference: every non-empty file present, of the recorded length and byte-identical, reference "
         "verifier 100% (hybrids in both views; a single file torrent must be a regular file dest/name), every counted file present, "
         "nothing else in the destination, no mutation outside it.  Separate small streams with a partially matching decoy enumerated "
-        "first (known finding D27) and with aligned v1 metafiles (D28).  A case is non-trivial when it is distinct and copies at least "
+        "first (known finding D27) and with aligned v1 metafiles (D28).  Aimed streams: the same file name in two directories with whole-piece "
+        "files; file, directory and torrent names that CONTAIN consecutive dots ('wait....bin', 'disc..2', '..x': ordinary names, also in "
+        "every random payload pool), as single metafiles and in batches / metafile directories; v1 with a file of exactly k pieces followed "
+        "by a file whose wholly different same-size decoy is enumerated before the intact copy; RESUME sequences (v1, v2, hybrid; Assembler "
+        "API, CLI in process, and `python -m torrentfile rebuild` in separate processes): rebuild into the empty destination (judged), "
+        "then 1-2 rebuilt files are cut to 0 / 1 / half / length-1 bytes as an interrupted copy leaves them, then the same rebuild again, and "
+        "the destination is judged again by the same reference (failure kinds prefixed `resume:`).  A case is non-trivial when it is distinct and copies at least "
         "one non-empty file.")
 TRUSTED_BASE = rc.TRUSTED_BASE
 ASSUMPTIONS = ["no symbolic links or special files in search directories or destination",
